@@ -42,7 +42,8 @@ class SetupPyWriter(DependencyWriter):
 
         if not dry_run:
             with open(self.path, "w", encoding="utf-8", newline="") as f:
-                f.write(output_tree.code)
+                # libcst drops a leading byte order mark: the file keeps its own
+                f.write(self._bom + output_tree.code)
 
         changes = self.build_changes(
             dependencies, fixed_line_number_strategy, codemod.line_num_changed
@@ -56,7 +57,9 @@ class SetupPyWriter(DependencyWriter):
     def _parse_file(self):
         # newline="": do not translate line endings, the file keeps its own
         with open(self.path, encoding="utf-8", newline="") as f:
-            return cst.parse_module(f.read())
+            source = f.read()
+        self._bom = "\ufeff" if source.startswith("\ufeff") else ""
+        return cst.parse_module(source)
 
 
 class SetupPyAddDependencies(SimpleCodemod, NameResolutionMixin):
